@@ -59,6 +59,11 @@ func Matches(sub, subject string) bool {
 	st, jt := tokens(sub), tokens(subject)
 	for i, t := range st {
 		if t == ">" {
+			if i != len(st)-1 {
+				// a full wildcard followed by further tokens is no valid subscription subject:
+				// the server refuses it, nothing is ever delivered to it
+				return false
+			}
 			return len(jt) > i
 		}
 		if i >= len(jt) {
